@@ -72,6 +72,13 @@ pub fn run(c: &Campaign, st: &mut Stats) -> Result<Vec<Found>, String> {
             .current_dir(&dir)
             .stdout(std::process::Stdio::null())
             .stderr(std::process::Stdio::piped());
+        unsafe {
+            use std::os::unix::process::CommandExt;
+            cmd.pre_exec(|| {
+                crate::crashguard::unlimit_memory();
+                Ok(())
+            });
+        }
         if dict.exists() && c.target == "fz_bytes" {
             cmd.arg(format!("-dict={}", dict.display()));
         }
